@@ -42,8 +42,9 @@
 //! Every violating signature is re-run alone (serially) three times and reported only if it
 //! violates every time; otherwise it is counted as flaky.
 //!
-//! Socket kinds (request half).  The product above is executed through three of rustrtc's
-//! `IceSocketWrapper` kinds; signatures / replay files of the first kind are unchanged, the
+//! Socket kinds (request half).  The product above is executed through four of rustrtc's
+//! socket paths (`IceSocketWrapper::{Udp, SharedUdp, TcpStream}`, the last one behind the
+//! per-connection and behind the shared listener); signatures / replay files of the first kind are unchanged, the
 //! others carry `;kind=<kind>` resp. `"socket": "<kind>"`:
 //!
 //! * `udp` — the per-connection UDP host socket (everything above).
@@ -72,6 +73,20 @@
 //!   through the transport's public `set_data_receiver` hook: the connection's read loop awaits
 //!   `handle_packet` frame by frame, so the barrier frame's delivery proves the request has been
 //!   handled completely.
+//! * `shared-tcp-mux` — `tcp_port_range_start == tcp_port_range_end`: the process-wide shared
+//!   passive TCP listener (`shared_tcp.rs`); the FIRST frame of a connection must be a Binding
+//!   request whose USERNAME names a registered transport, the connection is then attached to that
+//!   transport (first frame handled by the demultiplexer task, later frames by the transport's
+//!   read loop); anything else makes the demultiplexer drop the connection.  Own port per case as
+//!   for the UDP mux, bystander transport B on the same listener, USERNAME / MESSAGE-INTEGRITY
+//!   extended as for the UDP mux, states as for tcp-passive.  Sources: `known` (P's advertised
+//!   address; the request is the connection's first frame, or, in connected-over-tcp, a later frame
+//!   of the nominated connection), `stranger` (first frame of a second connection) and
+//!   `stranger-attached` (the stranger first got its connection attached to A with a frame that
+//!   names A but carries no MESSAGE-INTEGRITY; the request under test is a later frame and reaches
+//!   A's read loop whatever its USERNAME).  Barrier: the non-STUN frame behind the request comes
+//!   back from A's or from B's data receiver, or the agent closes the connection (the request
+//!   reached no transport); both are observed, neither is a timer.
 use hmac::{Hmac, Mac};
 use rayon::prelude::*;
 use rustrtc::transports::ice::{IceParameters, stun::StunMessage};
@@ -135,6 +150,11 @@ dim!(Src {
     // shared-udp-mux kind only: the address of the BYSTANDER transport's genuine peer PB, i.e. a
     // source the shared socket currently routes to the other session
     OtherPeer => "other-transport-peer",
+    // shared-tcp-mux kind only: the stranger's connection was attached to the transport under test
+    // beforehand by a routable but unauthenticated first frame (right USERNAME, no
+    // MESSAGE-INTEGRITY); the request under test is a LATER frame and reaches the transport's
+    // read loop whatever its USERNAME
+    Attached => "stranger-attached",
 });
 dim!(St {
     New => "new",
@@ -149,7 +169,18 @@ dim!(St {
     // TCP connection selected the TCP pair (Connected, nominated)
     ConnectedTcp => "connected-over-tcp",
 });
-dim!(Kind { Udp => "udp", Mux => "shared-udp-mux", Tcp => "tcp-passive" });
+dim!(Kind { Udp => "udp", Mux => "shared-udp-mux", Tcp => "tcp-passive", TcpMux => "shared-tcp-mux" });
+
+impl Kind {
+    /// kinds in which a second live transport is registered on the same shared socket
+    fn has_bystander(self) -> bool {
+        matches!(self, Kind::Mux | Kind::TcpMux)
+    }
+    /// kinds in which the request under test travels on a TCP connection
+    fn is_tcp(self) -> bool {
+        matches!(self, Kind::Tcp | Kind::TcpMux)
+    }
+}
 dim!(Role { Controlling => "controlling", Controlled => "controlled" });
 dim!(RClass { Success => "success", Error => "error" });
 dim!(TxKind { Random => "random", Stale => "stale", Live => "live" });
@@ -191,7 +222,7 @@ impl ReqCase {
     }
     /// authenticated against the bystander transport of the shared-udp-mux kind
     fn authenticated_for_bystander(&self) -> bool {
-        self.kind == Kind::Mux && self.user == User::Other && self.mi == Mi::OtherPwd
+        self.kind.has_bystander() && self.user == User::Other && self.mi == Mi::OtherPwd
     }
     fn json(&self) -> Value {
         let mut v = json!({"kind": "request", "user": self.user.name(), "mi": self.mi.name(), "flip_bit": self.flip, "fp": self.fp.name(),
@@ -560,6 +591,8 @@ impl Snap {
 /// shared-udp-mux kind: the second transport registered on the same shared socket, and its peer.
 struct Bystander {
     ice: IceTransport,
+    /// the bystander's UDP address (shared-udp-mux: the shared socket itself)
+    udp_addr: SocketAddr,
     nom_rx: watch::Receiver<Option<bool>>,
     pb: UdpSocket,
     runner: tokio::task::JoinHandle<()>,
@@ -577,8 +610,11 @@ struct TcpSide {
     s_conn: Option<OwnedWriteHalf>,
     frames_tx: mpsc::UnboundedSender<(char, Vec<u8>)>,
     frames_rx: mpsc::UnboundedReceiver<(char, Vec<u8>)>,
-    /// non-STUN frames the transport handed to its data receiver (the ordering barrier's echo)
+    /// non-STUN frames the transport (or the bystander) handed to its data receiver (the
+    /// ordering barrier's echo)
     data_rx: mpsc::UnboundedReceiver<(Vec<u8>, SocketAddr)>,
+    /// connections the AGENT closed or reset (a zero-length pseudo frame from the reader task)
+    closed: BTreeSet<char>,
 }
 
 struct DataTap {
@@ -648,10 +684,13 @@ impl Env {
         if Some(a) == self.s.local_addr().ok() {
             return "S".into();
         }
-        if let Some(b) = &self.b
-            && Some(a) == b.pb.local_addr().ok()
-        {
-            return "PB".into();
+        if let Some(b) = &self.b {
+            if Some(a) == b.pb.local_addr().ok() {
+                return "PB".into();
+            }
+            if a == b.udp_addr {
+                return "agentB".into();
+            }
         }
         if let Some(t) = &self.tcp {
             if a == t.agent_tcp {
@@ -722,13 +761,13 @@ impl Env {
         let mut buf = [0u8; 2048];
         let mut got: Vec<(char, Parsed)> = vec![];
         {
-            let mut socks: Vec<(char, &UdpSocket)> = vec![('P', &self.p), ('S', &self.s)];
+            let mut socks: Vec<(char, &UdpSocket, SocketAddr)> = vec![('P', &self.p, self.agent), ('S', &self.s, self.agent)];
             if let Some(b) = &self.b {
-                socks.push(('B', &b.pb));
+                socks.push(('B', &b.pb, b.udp_addr));
             }
-            for (tag, sock) in socks {
+            for (tag, sock, agent) in socks {
                 while let Ok((len, from)) = sock.try_recv_from(&mut buf) {
-                    if from != self.agent {
+                    if from != agent {
                         continue;
                     }
                     if let Some(p) = parse_stun(&buf[..len]) {
@@ -737,14 +776,15 @@ impl Env {
                 }
             }
         }
-        if let Some((tag, f)) = first_frame
-            && let Some(p) = parse_stun(&f)
-        {
-            got.push((tag, p));
-        }
         if let Some(t) = self.tcp.as_mut() {
-            while let Ok((tag, f)) = t.frames_rx.try_recv() {
-                if let Some(p) = parse_stun(&f) {
+            let mut frames: Vec<(char, Vec<u8>)> = first_frame.into_iter().collect();
+            while let Ok(f) = t.frames_rx.try_recv() {
+                frames.push(f);
+            }
+            for (tag, f) in frames {
+                if f.is_empty() {
+                    t.closed.insert(tag);
+                } else if let Some(p) = parse_stun(&f) {
                     got.push((tag, p));
                 }
             }
@@ -831,10 +871,12 @@ impl Env {
                 if rd.read_exact(&mut b).await.is_err() {
                     break;
                 }
-                if tx.send((who, b)).is_err() {
+                if b.is_empty() || tx.send((who, b)).is_err() {
                     break;
                 }
             }
+            // the agent closed / reset the connection
+            let _ = tx.send((who, vec![]));
         });
         *slot = Some(wr);
         Ok(())
@@ -847,7 +889,7 @@ impl Env {
             'S' => self.s.send_to(payload, self.agent).await.map(|_| ()).map_err(|e| e.to_string()),
             'B' => {
                 let b = self.b.as_ref().ok_or("no bystander in this kind")?;
-                b.pb.send_to(payload, self.agent).await.map(|_| ()).map_err(|e| e.to_string())
+                b.pb.send_to(payload, b.udp_addr).await.map(|_| ()).map_err(|e| e.to_string())
             }
             'T' | 'U' => {
                 self.tcp_connect(from).await?;
@@ -867,7 +909,7 @@ impl Env {
     /// shared-udp-mux: the same P -> A, and the bystander's own PB -> B; both must be answered.
     /// tcp-passive: a non-STUN frame on the carrier's connection, echoed by the data receiver.
     async fn barrier(&mut self, role: Role, carrier: char) -> bool {
-        if self.kind == Kind::Tcp {
+        if self.kind.is_tcp() {
             return self.barrier_data(carrier).await;
         }
         let txid = self.next_txid();
@@ -876,7 +918,7 @@ impl Env {
             return false;
         }
         let mut txid_b = None;
-        if let Some(other) = self.creds.other.clone() {
+        if let Some(other) = self.creds.other.clone().filter(|_| self.kind == Kind::Mux) {
             let t = self.next_txid();
             let req_b = build_bystander_barrier(&t, &other);
             if self.send_from('B', &req_b).await.is_err() {
@@ -901,17 +943,36 @@ impl Env {
         // first byte >= 2: neither STUN nor anything the transport interprets itself
         let mut payload = vec![0x80u8, b'C', b'0', b'6'];
         payload.extend_from_slice(&nonce);
-        if self.send_from(carrier, &payload).await.is_err() {
-            return false;
-        }
+        // a write error means the agent has closed the connection already: the close is awaited below
+        let _ = self.send_from(carrier, &payload).await;
         let end = Instant::now() + Duration::from_millis(1500);
-        let Some(t) = self.tcp.as_mut() else { return false };
         loop {
+            let Some(t) = self.tcp.as_mut() else { return false };
+            if t.closed.contains(&carrier) {
+                // shared-tcp-mux: the demultiplexer dropped the connection (first frame not routable):
+                // the request was consumed and reached no transport
+                return true;
+            }
             let left = end.saturating_duration_since(Instant::now());
-            match tokio::time::timeout(left, t.data_rx.recv()).await {
-                Ok(Some((d, _))) if d == payload => return true,
-                Ok(Some(_)) => continue,
-                _ => return false,
+            if left.is_zero() {
+                return false;
+            }
+            let mut frame = None;
+            tokio::select! {
+                d = t.data_rx.recv() => match d {
+                    Some((d, _)) if d == payload => return true,
+                    Some(_) => {}
+                    None => return false,
+                },
+                f = t.frames_rx.recv() => frame = f,
+                _ = tokio::time::sleep(left) => return false,
+            }
+            if let Some((tag, f)) = frame {
+                if f.is_empty() {
+                    t.closed.insert(tag);
+                } else if let Some(p) = parse_stun(&f) {
+                    self.inbox.push((tag, p, Instant::now()));
+                }
             }
         }
     }
@@ -957,6 +1018,13 @@ async fn setup(kind: Kind, st: St, role: Role, salt: u64) -> Result<Env, String>
             config.ice_udp_mux_port = Some(next_mux_port());
         }
         Kind::Tcp => config.ice_tcp_policy = IceTcpPolicy::PassiveOnly,
+        Kind::TcpMux => {
+            // single-port mode: start == end makes the passive listener process-wide and shared
+            let port = next_mux_port();
+            config.ice_tcp_policy = IceTcpPolicy::PassiveOnly;
+            config.tcp_port_range_start = Some(port);
+            config.tcp_port_range_end = Some(port);
+        }
     }
     let (ice, runner) = IceTransport::new(config.clone());
     let runner = tokio::spawn(runner);
@@ -969,11 +1037,27 @@ async fn setup(kind: Kind, st: St, role: Role, salt: u64) -> Result<Env, String>
     let locals = ice.local_candidates();
     let udp_hosts: Vec<_> = locals.iter().filter(|c| c.transport == "udp" && c.typ == IceCandidateType::Host).collect();
     let tcp_hosts: Vec<_> = locals.iter().filter(|c| c.transport == "tcp" && c.typ == IceCandidateType::Host).collect();
-    let want_tcp = usize::from(kind == Kind::Tcp);
+    // tcp-passive: the per-connection listener; shared-tcp-mux: that one and the shared listener
+    let want_tcp = match kind {
+        Kind::Udp | Kind::Mux => 0,
+        Kind::Tcp => 1,
+        Kind::TcpMux => 2,
+    };
     if udp_hosts.len() != 1 || tcp_hosts.len() != want_tcp || locals.len() != 1 + want_tcp {
         return Err(format!("expected exactly one UDP host candidate and {want_tcp} TCP passive candidate(s), got {locals:?}"));
     }
     let agent = udp_hosts[0].address;
+    let agent_tcp = match kind {
+        Kind::Tcp => Some(tcp_hosts[0].address),
+        Kind::TcpMux => Some(
+            tcp_hosts
+                .iter()
+                .find(|c| Some(c.address.port()) == config.tcp_port_range_start)
+                .ok_or_else(|| format!("no TCP passive candidate on the shared port {:?}: {locals:?}", config.tcp_port_range_start))?
+                .address,
+        ),
+        _ => None,
+    };
     if kind == Kind::Mux && Some(agent.port()) != config.ice_udp_mux_port {
         return Err(format!("host candidate {agent} is not on the shared mux port {:?}", config.ice_udp_mux_port));
     }
@@ -985,29 +1069,32 @@ async fn setup(kind: Kind, st: St, role: Role, salt: u64) -> Result<Env, String>
     // shared-udp-mux: the bystander joins the same shared socket
     let mut bystander = None;
     let mut other = None;
-    if kind == Kind::Mux {
+    if kind.has_bystander() {
         let (bice, brunner) = IceTransport::new(config.clone());
         let brunner = tokio::spawn(brunner);
         let bnom = bice.subscribe_nomination_complete();
         bice.set_role(IceRole::Controlled);
         gather(&bice).await?;
         let bl = bice.local_candidates();
-        if bl.len() != 1 || bl[0].address != agent || bl[0].transport != "udp" {
-            return Err(format!("bystander did not join the shared socket {agent}: {bl:?}"));
+        let shared = if kind == Kind::Mux { agent } else { agent_tcp.unwrap() };
+        let b_udp: Vec<_> = bl.iter().filter(|c| c.transport == "udp").collect();
+        if bl.len() != 1 + want_tcp || b_udp.len() != 1 || !bl.iter().any(|c| c.address == shared) {
+            return Err(format!("bystander did not join the shared socket {shared}: {bl:?}"));
         }
+        let b_udp_addr = b_udp[0].address;
         let pb = UdpSocket::bind("127.0.0.1:0").await.map_err(|e| e.to_string())?;
         let bparams = bice.local_parameters();
         if bparams.username_fragment == local.username_fragment {
             return Err("bystander drew the same ufrag".into());
         }
         other = Some(bparams);
-        bystander = Some(Bystander { ice: bice, nom_rx: bnom, pb, runner: brunner });
+        bystander = Some(Bystander { ice: bice, udp_addr: b_udp_addr, nom_rx: bnom, pb, runner: brunner });
     }
 
     // tcp-passive: fix both harness TCP addresses now, tap the transport's data path
     let mut tcp = None;
     let mut p_tcp_cand = None;
-    if kind == Kind::Tcp {
+    if kind.is_tcp() {
         let mk = || -> Result<(TcpSocket, SocketAddr), String> {
             let sock = TcpSocket::new_v4().map_err(|e| e.to_string())?;
             sock.bind("127.0.0.1:0".parse().unwrap()).map_err(|e| e.to_string())?;
@@ -1018,10 +1105,14 @@ async fn setup(kind: Kind, st: St, role: Role, salt: u64) -> Result<Env, String>
         let (s_sock, s_tcp_addr) = mk()?;
         let (frames_tx, frames_rx) = mpsc::unbounded_channel();
         let (data_tx, data_rx) = mpsc::unbounded_channel();
+        if let Some(b) = &bystander {
+            // a barrier frame behind a request that was routed to the bystander comes back from there
+            b.ice.set_data_receiver(Arc::new(DataTap { tx: data_tx.clone() })).await;
+        }
         ice.set_data_receiver(Arc::new(DataTap { tx: data_tx })).await;
         p_tcp_cand = Some(IceCandidate::tcp(p_tcp_addr, 1, "active"));
         tcp = Some(TcpSide {
-            agent_tcp: tcp_hosts[0].address,
+            agent_tcp: agent_tcp.unwrap(),
             p_addr: p_tcp_addr,
             s_addr: s_tcp_addr,
             p_sock: Some(p_sock),
@@ -1031,6 +1122,7 @@ async fn setup(kind: Kind, st: St, role: Role, salt: u64) -> Result<Env, String>
             frames_tx,
             frames_rx,
             data_rx,
+            closed: BTreeSet::new(),
         });
     }
 
@@ -1116,8 +1208,8 @@ async fn setup(kind: Kind, st: St, role: Role, salt: u64) -> Result<Env, String>
         return Ok(env);
     }
     if st == St::ConnectedTcp {
-        if kind != Kind::Tcp || role != Role::Controlled {
-            return Err("connected-over-tcp exists only for the controlled role of the tcp-passive kind".into());
+        if !kind.is_tcp() || role != Role::Controlled {
+            return Err("connected-over-tcp exists only for the controlled role of the TCP kinds".into());
         }
         // the genuine controlling peer connects from its advertised TCP address and nominates
         let txid = env.next_txid();
@@ -1212,6 +1304,8 @@ struct Outcome {
     bystander: Option<(Snap, Snap)>,
     /// `get_selected_socket()` differs (recorded, not judged)
     socket_changed: bool,
+    /// TCP kinds: the agent closed the connection the request arrived on
+    closed_by_agent: bool,
     violates: bool,
     signature: String,
 }
@@ -1241,16 +1335,26 @@ fn case_salt(c: &Case, attempt: u32) -> u64 {
 async fn run_req(c: ReqCase, attempt: u32) -> Result<Outcome, String> {
     let mut env = setup(c.kind, c.st, c.role, case_salt(&Case::Req(c), attempt)).await?;
     // the harness endpoint the request travels from
-    let tag = match (c.kind, c.src) {
-        (Kind::Tcp, Src::Known) => 'T',
-        (Kind::Tcp, Src::Stranger) => 'U',
+    let tag = match (c.kind.is_tcp(), c.src) {
+        (true, Src::Known) => 'T',
+        (true, Src::Stranger | Src::Attached) => 'U',
         (_, Src::Known) => 'P',
-        (_, Src::Stranger) => 'S',
+        (_, Src::Stranger | Src::Attached) => 'S',
         (_, Src::OtherPeer) => 'B',
     };
-    if c.kind == Kind::Tcp {
+    if c.kind.is_tcp() {
         // the connection exists before the first snapshot: the difference is the request's alone
         env.tcp_connect(tag).await?;
+    }
+    if c.src == Src::Attached {
+        // the stranger gets its connection attached to the transport under test: a first frame that
+        // names it (right USERNAME) but proves nothing (no MESSAGE-INTEGRITY, no USE-CANDIDATE)
+        let txid = env.next_txid();
+        let hello = build_request(&txid, User::Right, Mi::Absent, 0, Fp::Good, false, Env::genuine_attr(c.role), &env.creds);
+        env.send_from(tag, &hello).await?;
+        if !env.barrier_data(tag).await || env.tcp.as_ref().is_some_and(|t| t.closed.contains(&tag)) {
+            return Err("the stranger's connection was not attached by a routable first frame".into());
+        }
     }
     let before = env.snapshot();
     let before_b = env.snapshot_bystander();
@@ -1277,6 +1381,7 @@ async fn run_req(c: ReqCase, attempt: u32) -> Result<Outcome, String> {
         .unwrap_or_else(|| "none".to_string());
     let after = env.snapshot();
     let after_b = env.snapshot_bystander();
+    let closed_by_agent = env.tcp.as_ref().is_some_and(|t| t.closed.contains(&tag));
     let renotified = env.nom_rx.has_changed().unwrap_or(false) && before.nomination == after.nomination;
     env.teardown();
     let (own, mut other_state_change) = diff(&before, &after);
@@ -1316,6 +1421,7 @@ async fn run_req(c: ReqCase, attempt: u32) -> Result<Outcome, String> {
         after,
         bystander,
         socket_changed,
+        closed_by_agent,
         violates,
         signature,
     })
@@ -1488,6 +1594,7 @@ async fn run_resp(c: RespCase, attempt: u32) -> Result<Outcome, String> {
         after,
         bystander: None,
         socket_changed,
+        closed_by_agent: false,
         violates,
         signature,
     })
@@ -1529,6 +1636,7 @@ fn outcome_json(o: &Outcome) -> Value {
         "bystander_before": o.bystander.as_ref().map(|b| b.0.json()),
         "bystander_after": o.bystander.as_ref().map(|b| b.1.json()),
         "selected_socket_changed": o.socket_changed,
+        "connection_closed_by_agent": o.closed_by_agent,
         "barrier_answered": o.barrier_ok,
         "live_transaction_still_retransmitted": o.live_still_outstanding,
         "nomination_renotified_same_value": o.renotified,
@@ -1549,7 +1657,7 @@ fn state_exists(kind: Kind, st: St, role: Role) -> bool {
     match kind {
         Kind::Udp => st != St::ConnectedTcp,
         Kind::Mux => matches!(st, St::New | St::Checking | St::ConnPending | St::Connected),
-        Kind::Tcp => matches!(st, St::New | St::Checking | St::ConnPending | St::Connected) || (st == St::ConnectedTcp && role == Role::Controlled),
+        Kind::Tcp | Kind::TcpMux => matches!(st, St::New | St::Checking | St::ConnPending | St::Connected) || (st == St::ConnectedTcp && role == Role::Controlled),
     }
 }
 
@@ -1564,16 +1672,16 @@ fn enumerate(tier: vh::Tier) -> Vec<Case> {
                     continue;
                 }
                 for &src in Src::ALL {
-                    if src == Src::OtherPeer && kind != Kind::Mux {
+                    if (src == Src::OtherPeer && kind != Kind::Mux) || (src == Src::Attached && kind != Kind::TcpMux) {
                         continue;
                     }
                     for uc in [false, true] {
                         for &user in User::ALL {
-                            if (user == User::Stale && st != St::Restarted) || (user == User::Other && kind != Kind::Mux) {
+                            if (user == User::Stale && st != St::Restarted) || (user == User::Other && !kind.has_bystander()) {
                                 continue;
                             }
                             for &mi in Mi::ALL {
-                                if mi == Mi::OtherPwd && kind != Kind::Mux {
+                                if mi == Mi::OtherPwd && !kind.has_bystander() {
                                     continue;
                                 }
                                 let fps: &[Fp] = if quick { &[Fp::Good] } else { Fp::ALL };
@@ -1773,6 +1881,7 @@ fn main() {
         processed: u64,
         violating: u64,
         socket_changed_unauthenticated: u64,
+        closed_by_agent: u64,
         states: BTreeSet<String>,
         effects: BTreeMap<String, u64>,
     }
@@ -1793,9 +1902,10 @@ fn main() {
                 k.bystander_positive += 1;
                 k.bystander_positive_with_effect += u64::from(b_effect);
             }
-            if !c.authenticated() || c.kind == Kind::Mux {
+            if !c.authenticated() || c.kind.has_bystander() {
                 k.judged += 1;
             }
+            k.closed_by_agent += u64::from(o.closed_by_agent);
             if !c.authenticated() && !c.authenticated_for_bystander() && o.socket_changed {
                 k.socket_changed_unauthenticated += 1;
             }
@@ -1879,8 +1989,9 @@ fn main() {
     rep.set("judged_requests_by_socket_kind", kind_json(&|k| json!(k.judged)));
     rep.set("authenticated_controls_by_socket_kind", kind_json(&|k| json!(k.positive)));
     rep.set("authenticated_controls_with_effect_by_socket_kind", kind_json(&|k| json!(k.positive_with_effect)));
-    rep.set("bystander_authenticated_controls", by_kind.get(Kind::Mux.name()).map(|k| k.bystander_positive).unwrap_or(0));
-    rep.set("bystander_authenticated_controls_with_effect", by_kind.get(Kind::Mux.name()).map(|k| k.bystander_positive_with_effect).unwrap_or(0));
+    rep.set("bystander_authenticated_controls_by_socket_kind", kind_json(&|k| json!(k.bystander_positive)));
+    rep.set("bystander_authenticated_controls_with_effect_by_socket_kind", kind_json(&|k| json!(k.bystander_positive_with_effect)));
+    rep.set("tcp_connections_closed_by_agent_after_request_by_socket_kind", kind_json(&|k| json!(k.closed_by_agent)));
     rep.set("cases_processed_by_agent_by_socket_kind", kind_json(&|k| json!(k.processed)));
     rep.set("barrier_fallbacks_to_silence_by_socket_kind", kind_json(&|k| json!(k.barrier_fallbacks)));
     rep.set("violating_cases_by_socket_kind", kind_json(&|k| json!(k.violating)));
@@ -1894,6 +2005,7 @@ fn main() {
         "states_not_reached_by_socket_kind",
         json!({
             "shared-udp-mux": "connected-relaypeer and checking-after-remote-restart (properties of the remote candidate list / credential generation, socket independent; enumerated on the udp kind)",
+            "shared-tcp-mux": "as tcp-passive",
             "tcp-passive": "connected-relaypeer and checking-after-remote-restart as above; connected-over-tcp exists for the controlled role only (a controlling rustrtc agent never sends checks on an inbound TCP connection, so a passive pair cannot be nominated by it); new/checking/connected-unnominated/connected are reached through the transport's UDP peer while the request under test arrives on the TCP listener",
         }),
     );
@@ -1915,7 +2027,7 @@ fn main() {
             "requests, udp kind: USERNAME{{3; +stale-remote-ufrag after a remote restart}} x MI{{5 + bitflip first/last}} x FINGERPRINT{{{fp}}} x USE-CANDIDATE{{2}} x role-attr{{{ra}}} x source{{2}} x state{{6}} x role{{2}} + single-bit MI corruptions in one context; shared-udp-mux kind (two transports on one shared socket): USERNAME{{none, wrong, other transport's, right}} x MI{{5 + bitflip first/last + other transport's password}} x FINGERPRINT{{{fp}}} x USE-CANDIDATE{{2}} x role-attr{{{ra}}} x source{{A's peer, stranger, the other transport's peer}} x {mux_sr}; tcp-passive kind (RFC 4571 frames on accepted connections): USERNAME{{3}} x MI{{5 + bitflip first/last}} x FINGERPRINT{{{fp}}} x USE-CANDIDATE{{2}} x role-attr{{{ra}}} x source{{known connection, second connection}} x {tcp_sr}; together = {n_req} ({by}); responses (udp kind): class{{2}} x txid{{random,stale,live where they exist}} x source{{2}} x state{{checking,connected-unnominated,connected}} x role{{2}} = {n_resp}",
             fp = if matches!(cli.tier, vh::Tier::Quick) { 1 } else { 3 },
             ra = if matches!(cli.tier, vh::Tier::Quick) { 1 } else { 2 },
-            mux_sr = "state{new,checking,connected-unnominated,connected} x role{2}",
+            mux_sr = "state{new,checking,connected-unnominated,connected} x role{2}; shared-tcp-mux kind (two transports on one shared listener): USERNAME{4} x MI{8} as for the UDP mux x FINGERPRINT x USE-CANDIDATE{2} x role-attr x source{known, stranger's first frame, stranger's attached connection} x the tcp-passive states",
             tcp_sr = "(state{new,checking,connected-unnominated,connected} x role{2} + connected-over-tcp x controlled)",
             by = by_kind.iter().map(|(k, st)| format!("{k} {}", st.cases)).collect::<Vec<_>>().join(", "),
         ),
@@ -1924,9 +2036,10 @@ fn main() {
     rep.assume("'wrong USERNAME' is a wrong local ufrag; a right local ufrag with a wrong remote ufrag is not enumerated (RFC 8445 leaves it to the implementation)");
     rep.assume("'random' MESSAGE-INTEGRITY is one fixed arbitrary 20-byte value per case (derived from the case id), not sampled");
     rep.assume("in state New the remote ICE parameters are installed with set_remote_parameters so that 'right USERNAME' is defined");
-    rep.assume("socket kinds: per-connection UDP host socket, process-wide shared UDP mux socket (own port per case, two transports registered) and RFC 6544 passive TCP listener (per-connection listener, RFC 4571 framing); not exercised: the single-port shared TCP listener (tcp_port_range_start == tcp_port_range_end), agent-initiated (active) TCP connections and TURN relays (need a live server); the response half runs on the udp kind only");
+    rep.assume("socket kinds: per-connection UDP host socket, process-wide shared UDP mux socket (own port per case, two transports registered) and RFC 6544 passive TCP listener (per-connection listener, RFC 4571 framing); the process-wide shared passive TCP listener (tcp_port_range_start == tcp_port_range_end, own port per case, two transports registered; the transport also keeps its UDP host socket and per-connection listener); not exercised: agent-initiated (active) TCP connections and TURN relays (need a live server); the response half runs on the udp kind only");
     rep.assume("shared-udp-mux: quiescence = authenticated no-op barriers P->A and PB->B behind the datagram under test (one mux receive loop, one FIFO and one read loop per session); the bystander B is always controlled/Checking; before A's own check is answered P sends one genuine authenticated check, because the shared socket learns P's address only from a Binding request of P");
     rep.assume("tcp-passive: quiescence = a non-STUN frame written behind the request on the same TCP connection and echoed through the public set_data_receiver hook (the connection's read loop handles frames strictly in order); P's TCP source address is bound in advance and advertised as a TCP active remote candidate, the stranger is a second connection from an unlisted address; a bare TCP connect (no STUN) is established before the first snapshot");
+    rep.assume("shared-tcp-mux: the barrier frame comes back from the data receiver of whichever transport the connection was attached to, or the demultiplexer closes the connection (first frame names no registered transport) and the close is observed; an authenticated first frame is handled by the demultiplexer task while the read loop for later frames is started concurrently - on the unchanged tree that handling does not yield before it is complete, a mutant that made it yield could show its effect after the barrier (missed detection, never a false alarm)");
     rep.assume("get_selected_socket() is recorded before/after and counted, not judged (the property names the selected pair, not the socket)");
     rep.assume("a response with a live transaction id is recorded but not judged, whatever its source (the property only requires a matching outstanding transaction)");
     // samples: one violating, one clean unauthenticated, one authenticated, one response
@@ -1946,7 +2059,7 @@ fn main() {
     if let Some(o) = outs.iter().find(|o| matches!(o.case, Case::Resp(c) if c.tx == TxKind::Stale)) {
         picks.push(o);
     }
-    for kind in [Kind::Mux, Kind::Tcp] {
+    for kind in [Kind::Mux, Kind::Tcp, Kind::TcpMux] {
         // per new kind: an authenticated control with effect and a judged stranger request
         if let Some(o) = outs.iter().find(|o| matches!(o.case, Case::Req(c) if c.kind == kind && c.authenticated() && c.uc) && !o.effects.is_empty()) {
             picks.push(o);
@@ -1991,8 +2104,11 @@ fn main() {
         if k.barrier_fallbacks * 20 > k.cases {
             vh::machinery_failure(&format!("socket kind {}: ordering barrier unanswered in {} of {} cases", kind.name(), k.barrier_fallbacks, k.cases));
         }
-        if *kind == Kind::Mux && k.bystander_positive_with_effect == 0 {
-            vh::machinery_failure("vacuous on shared-udp-mux: no request authenticated against the bystander transport had any effect on it (demultiplexing by USERNAME not exercised)");
+        if kind.has_bystander() && k.bystander_positive_with_effect == 0 {
+            vh::machinery_failure(&format!("vacuous on {}: no request authenticated against the bystander transport had any effect on it (demultiplexing by USERNAME not exercised)", kind.name()));
+        }
+        if *kind == Kind::TcpMux && k.closed_by_agent == 0 {
+            vh::machinery_failure("vacuous on shared-tcp-mux: the demultiplexer never dropped a connection whose first frame named no registered transport");
         }
     }
     std::process::exit(rep.finish());
